@@ -655,3 +655,69 @@ def base_cassette_misc(props=None):
         obl.append(Obl('C15/TapeCassette.__exit__/is_exactly_close_and_does_not_suppress', ('C15', 'C07'), s,
                        z3.And(z3.BoolVal(s.g.get('closed', 0) == 1), z3.BoolVal(oc[0] == 'normal') if oc[0] == 'normal' else z3.Not(truthy(oc[1])) if oc[0] == 'return' else z3.BoolVal(False)), oc))
     return infos, obl, {'paths': n, 'forks': 0}
+
+
+META_OF = z3.Function('metadata_of_recording_id', Val, Val)
+
+
+def iter_metadata_unit(props=None):
+    """TapeCassette.iter_recordings_metadata: the metadata of exactly the ids that iter_recording_ids yields for the SAME search arguments, in
+    that order, one per id (generator; loop invariant over the ghost list of yielded values)"""
+    repo, spec, ex = mk(); ex.generator = True
+    m, cls, node, info = repo.find(TC + 'iter_recordings_metadata')
+    st = St(); selfv = st.sym_obj('self', 'TapeCassette', False); st.g['yielded'] = []
+    params = ['category', 'start_date', 'end_date', 'metadata', 'limit']; fr = {'self': selfv}
+    for p_ in params:
+        fr[p_] = fresh(p_)
+    ids = fresh('matching_ids', SeqV)
+
+    def c_ids(ex_, s, args, kw, node_, star, dstar):
+        o = s.new_seq(ids); s.g['ids_call'] = (list(args[1:]), dict(kw)); return [(s, ('val', o))]
+
+    def c_meta(ex_, s, args, kw, node_, star, dstar):
+        s2 = s.copy(); e_ = s2.sym_exc(label='exc_get_metadata'); s2.trace.append(dict(kind='Iface', name='get_recording_metadata', outcome=('raise', e_)))
+        return [(s, ('val', META_OF(args[1]))), (s2, ('exc', e_))]
+    ex.contracts['TapeCassette.iter_recording_ids'] = c_ids; ex.contracts['TapeCassette.get_recording_metadata'] = c_meta
+
+    def loop(ex_, s0, n, itv):
+        if not isinstance(n, ast.For) or ex_.spine(s0, itv) is not None:
+            return None
+        s0.g['ybase'] = len(s0.g['yielded']); s0.g['ymeta'] = z3.Empty(SeqV)
+        MAP = z3.Function('metadata_of_each', SeqV, SeqV)
+        s0.assume(MAP(z3.Empty(SeqV)) == z3.Empty(SeqV)); s0.g['MAP'] = MAP
+
+        def now(s):
+            sq = s.g['ymeta']
+            for y in s.g['yielded'][s.g['ybase']:]:
+                sq = z3.Concat(sq, z3.Unit(y))
+            return sq
+
+        def bind(s, done, x):
+            s.setvar(n.target.id, x); s.g['ybase'] = len(s.g['yielded'])
+            s.assume(MAP(z3.Concat(done, z3.Unit(x))) == z3.Concat(MAP(done), z3.Unit(META_OF(x))))       # definition of the pointwise map (step)
+
+        def havoc_state(s):
+            s.g['ymeta'] = fresh('yielded_so_far', SeqV); s.g['ybase'] = len(s.g['yielded'])
+        s0.g['now'] = now
+        return dict(seq=s0.seq(itv), bind=bind, havoc=[], havoc_state=havoc_state, inv=lambda s, done: now(s) == MAP(done), name='loop.ids')
+    spec.loop = loop
+    st.push(fr, None, (m.name, cls, node))
+    paths = ex.block(node.body, st); obl = []; U = 'TapeCassette.iter_recordings_metadata'; P = ('C10', 'C07')
+    obl += [Obl('C10/%s/%s' % (U, a), P, s_, c_, oc_) for a, s_, c_, oc_ in ex.obligations]
+    for s, oc in paths:
+        call = s.g.get('ids_call')
+        passed = call is not None and len(call[0]) + len(call[1]) == len(params)
+        if passed:
+            got = dict(zip(params, call[0])); got.update(call[1])
+            cl = z3.And(*[got[p_] == fr[p_] for p_ in params]) if set(got) == set(params) else z3.BoolVal(False)
+        else:
+            cl = z3.BoolVal(False)
+        obl.append(Obl('C10/%s/ids_looked_up_with_the_callers_search_arguments' % U, P, s, cl, oc))
+        if s.g.get('loop_exhausted'):
+            obl.append(Obl('C10/%s/exhausted/yields_the_metadata_of_each_matching_id_in_order' % U, P, s, s.g['now'](s) == s.g['MAP'](ids), oc))
+        elif oc[0] == 'raise':
+            fails = [t['outcome'][1] for t in s.trace if t.get('name') == 'get_recording_metadata' and t['outcome'][0] == 'raise']
+            obl.append(Obl('C10/%s/ends_abnormally_only_when_closed_or_when_a_fetch_fails' % U, P, s,
+                           z3.Or(z3.BoolVal(bool(s.g.get('closed_by_consumer'))), *[oc[1] == e_ for e_ in fails]), oc))
+    return [info], obl, {'paths': len(paths), 'forks': ex.forks}
+
